@@ -94,10 +94,13 @@ SCOPES = {
                               Mags=set(), Exps={1})),
         ],
         "bounds": [
-            # every configuration with every non-empty set of working batteries
+            # every configuration with every status assignment (working / uncertain / not working, see StatusSets)
             ("bounds", _scope(Mode="bounds", NGroups={1, 2}, Caps={1}, Socs={2}, BatBnds={(-6, -2, 0, 2), (-2, 0, 2, 6), (-6, 0, 3, 6)},
-                              InvBnds=bnds({2, 4}, {0, 1, 2}), Shapes1={(1, 1), (1, 2), (2, 1), (2, 2)}, ShapesR={(1, 1), (2, 1)},
+                              InvBnds=bnds({2, 4}, {0, 1, 2}), Shapes1={(1, 1), (1, 2), (2, 1), (2, 2)}, ShapesR={(1, 1)},
                               Mags=set(), Exps={1})),
+            # two battery sets that both have two batteries behind one inverter
+            ("bounds22", _scope(Mode="bounds", NGroups={2}, Caps={1}, Socs={2}, BatBnds={(-6, -2, 0, 2), (-2, 0, 2, 6)},
+                                InvBnds=bnds({2, 4}, {0, 2}), Shapes1={(2, 1)}, ShapesR={(2, 1)}, Mags=set(), Exps={1})),
         ],
         "admit": [
             # admitted requests through the whole manager path (Result must not be OutOfBounds)
@@ -180,12 +183,13 @@ class _Cache:
 
 
 class _Tracker:
-    """Stands in for ComponentPoolStatusTracker: the set the manager gets from get_working_components."""
+    """Stands in for ComponentPoolStatusTracker with its real semantics: every query of the manager is
+    answered by a real ComponentPoolStatus(working, uncertain).get_working_components(ids)."""
 
-    working = None  # None: every battery is working
+    status = None  # None: every battery is working
 
     def get_working_components(self, ids):
-        return set(ids) if self.working is None else set(ids) & self.working
+        return set(ids) if self.status is None else self.status.get_working_components(ids)
 
     async def update_status(self, ok, failed) -> None:
         return None
@@ -245,6 +249,7 @@ class Rig:
 
         from frequenz.sdk.microgrid import connection_manager
         from frequenz.sdk.microgrid._power_distributing._component_managers import _battery_manager as bm
+        from frequenz.sdk.microgrid._power_distributing._component_status import ComponentPoolStatus
         from frequenz.sdk.microgrid._power_distributing._distribution_algorithm import (
             AggregatedBatteryData,
             BatteryDistributionAlgorithm,
@@ -262,6 +267,7 @@ class Rig:
         self.Agg, self.Pair, self.Algo = AggregatedBatteryData, InvBatPair, BatteryDistributionAlgorithm
         self.Request, self.Power, self.OutOfBounds = Request, Power, OutOfBounds
         self.CMD, self.MID = ComponentMetricsData, ComponentMetricId
+        self.PoolStatus = ComponentPoolStatus
         self.ts = datetime(2024, 1, 1, tzinfo=timezone.utc)
         self.shape = shape
         comps = {Component(1, ComponentCategory.GRID), Component(2, ComponentCategory.METER)}
@@ -310,7 +316,7 @@ class Rig:
 
     def activate(self) -> None:
         self.connection_manager._CONNECTION_MANAGER = self.cm  # pylint: disable=protected-access
-        self.tracker.working = None
+        self.tracker.status = None
 
     # -- data -----------------------------------------------------------------
     def build(self, groups: list) -> list:
@@ -408,8 +414,11 @@ class Rig:
         self.build(groups)
         mgr = self.mgr
         M = self.MID
-        working = {self.bat_ids[g][k] for g, ws in enumerate(case["wk"]) for k, w_ in enumerate(ws) if w_}
-        self.tracker.working = working
+        ids = lambda what: {self.bat_ids[g][k] for g, ws in enumerate(case["bs"]) for k, x in enumerate(ws) if x == what}  # noqa: E731
+        status = self.PoolStatus(working=ids("w"), uncertain=ids("u"))
+        self.tracker.status = status
+        # the battery pool's working set: the same rule over ALL batteries of the pool (_battery_pool_reference_store)
+        working = status.get_working_components(set(self.all_bats))
         metrics = {}
         for c in mgr._battery_caches.values():
             b = c.v
@@ -447,8 +456,8 @@ class Rig:
             _, excl = algo._inclusion_exclusion_bounds(mpairs, supply=supply)
             ratios, _ = algo._compute_battery_availability_ratio(mpairs, {pr.battery.component_id: 1.0 for pr in mpairs}, excl)
             mps.append(fpw(sum(r.min_power for r in ratios)))
-        self.tracker.working = None
-        return dict(id=case["id"], kind="bounds", g=groups, wk=case["wk"], hp=hps, adv=adv, enf=enf, accA=acc_a, accN=acc_n, cont=cont, mpC=mps[0], mpS=mps[1])
+        self.tracker.status = None
+        return dict(id=case["id"], kind="bounds", g=groups, bs=case["bs"], hp=hps, adv=adv, enf=enf, accA=acc_a, accN=acc_n, cont=cont, mpC=mps[0], mpS=mps[1])
 
 
 _STAGEFILES: list = []  # (cases file, number of lines, kind, stage name); set before the workers are forked
@@ -659,7 +668,7 @@ NEEDED = {
             "cover_partial_branch", "cover_multi_donor", "third_inverter_powered", "not_advertised", "inside_enforced_zone", "beyond_incl_noadjust",
             "rejected_runs"],
     "C17": ["probes", "in_advertised", "contains", "rejected", "excl_differs", "manager", "multi_inverter", "multi_battery",
-            "partially_working", "group_not_working"],
+            "partially_working", "group_not_working", "set_working_other_only_uncertain", "fallback_all_uncertain"],
 }
 
 
@@ -701,7 +710,7 @@ def replay(prop: str, data: dict) -> int:
         print(json.dumps(data, indent=1)[:4000])
         return 0
     work = scratch(f"{prop}_replay")
-    case = {k: rec[k] for k in ("g", "p", "e", "hp", "wk") if k in rec}  # kind "dist", "reject" or "bounds"
+    case = {k: rec[k] for k in ("g", "p", "e", "hp", "bs") if k in rec}  # kind "dist", "reject" or "bounds"
     path = work / "cases.ndjson"
     path.write_text(json.dumps(case) + "\n")
     _STAGEFILES[:] = [(path, 1, rec["kind"], "replay")]
